@@ -1,1 +1,1 @@
-AREAS = ["amount", "replfetcher", "codec", "quote", "service", "recordstore", "nodeput", "bootcache", "parsers", "distance"]
+AREAS = ["amount", "replfetcher", "codec", "quote", "service", "recordstore", "nodeput", "bootcache", "parsers", "distance", "replication"]
